@@ -4,7 +4,7 @@ K: routing_drv builds each platform through the C++ platform API of the rebuilt 
    sequences must be identical (the property fixes them for torus and star).
 O: when they differ, the verified predicates decide: a torus route that is still a dimension-ordered shortest-way walk
    using the links joining consecutive nodes (and limiters/loopback as configured) is a harmless difference."""
-import itertools, json, os, subprocess
+import itertools, json, os, re, subprocess
 from concurrent.futures import ThreadPoolExecutor
 import fw
 from routing_lib import run_platforms, parse_routes, run_model_par
@@ -227,6 +227,338 @@ def check_star(ctx, drv, plats, dist):
             {"kind": "star", "lines": lines, "src": s, "dst": t, "impl": r, "verified": exp})
 
 
+# ----------------------------------------------------------------------------------------------- fat-tree
+def ft_counts(cs, ps):
+    """nodes per level 0..L as generate_switches computes them"""
+    L = len(cs)
+    return [prod(ps[:i]) * prod(cs[i:]) for i in range(L + 1)]
+
+
+def ft_limiter_ok(cs, ps):
+    """switch ids count down from 2*N0-1: with more switches than compute nodes they collide with the ranks (and go
+    negative), so limiter callbacks named after the id would create the same link twice (recorded finding)"""
+    n = ft_counts(cs, ps)
+    return sum(n[1:]) <= n[0]
+
+
+def ft_label(cs, x):
+    lab = []
+    for c in cs:
+        lab.append(x % c)
+        x //= c
+    return lab
+
+
+def ft_nca(cs, s, t):
+    a, b = ft_label(cs, s), ft_label(cs, t)
+    L = len(cs)
+    for l in range(1, L + 1):
+        if a[l:] == b[l:]:
+            return l
+    return L
+
+
+def ft_names(z, split, quads):
+    out = []
+    for i in range(0, len(quads), 4):
+        k, a, b, c = quads[i:i + 4]
+        if k in (0, 1):
+            out.append("link_from_%d_%d_%d%s" % (a, b, c, ("_UP" if k == 0 else "_DOWN") if split else ""))
+        elif k == 2:
+            out.append("%s_lb%d" % (z, a))
+        else:
+            out.append("%s_lim%d" % (z, a))
+    return out
+
+
+def ft_oracle(cs, ps, ns, lb, lim, split, s, t, links, z="f"):
+    """property-level judgement of an implementation route that differs from the modelled code: the source's loopback
+    alone when configured; otherwise k links up then k links down (k = level of the nearest common ancestors), each link
+    joining the current node to the next one, never up after down, ending at the destination; limiters of every node
+    left (before an up link, after a down link) and of the destination.  Returns None if acceptable."""
+    if s == t and lb:
+        return None if links == ["%s_lb%d" % (z, s)] else "loopback route is not exactly the configured loopback link"
+    k = ft_nca(cs, s, t)
+    cur, ups, downs, seq = s, 0, 0, list(links)
+    limn = lambda n: "%s_lim%d" % (z, n)
+    pat = re.compile(r"link_from_(-?\d+)_(-?\d+)_(\d+)(_UP|_DOWN)?$")
+    final_lim = False
+    while seq:
+        x = seq.pop(0)
+        had_lim = False
+        if lim and x == limn(cur):
+            if not seq:
+                final_lim = True
+                break
+            had_lim, x = True, seq.pop(0)
+        m = pat.match(x)
+        if not m:
+            return "unexpected element %s" % x
+        a, b = int(m.group(1)), int(m.group(2))
+        if cur == a and downs == 0 and (a != b or ups < k):
+            if lim and not had_lim:
+                return "limiter of node %d missing before its up link" % cur
+            if split and m.group(4) != "_UP":
+                return "wrong direction of split-duplex link"
+            ups, cur = ups + 1, b
+        elif cur == b and not had_lim:
+            if split and m.group(4) != "_DOWN":
+                return "wrong direction of split-duplex link"
+            if lim and (not seq or seq.pop(0) != limn(cur)):
+                return "limiter of node %d missing after its down link" % cur
+            downs, cur = downs + 1, a
+        else:
+            return "link %s does not leave the current node %d, or goes up after down, or a limiter is misplaced" % (x, cur)
+    if cur != t:
+        return "route ends at node %d, not at the destination" % cur
+    if ups != k or downs != k:
+        return "%d links up and %d down, nearest common ancestors are at level %d" % (ups, downs, k)
+    if lim and not final_lim:
+        return "limiter of the destination missing"
+    return None
+
+
+def ft_case_lines(cs, ps, ns, lb, lim, split):
+    return ["fattree f - %d %s %s %s %d %d %s 1" % (len(cs), ",".join(map(str, cs)), ",".join(map(str, ps)),
+                                                   ",".join(map(str, ns)), lb, lim, "split" if split else "shared"),
+            "sealall", "dump"]
+
+
+def check_fattree(ctx, drv, cfgs, dist):
+    cfgs = [(cs, ps, ns, lb, lim if ft_limiter_ok(cs, ps) else 0, split) for (cs, ps, ns, lb, lim, split) in cfgs]
+    outs = run_platforms(drv, [ft_case_lines(*c) for c in cfgs])
+    model = run_model_par("c26", "run_fattree", [[lb, lim, len(cs)] + cs + ps + ns for (cs, ps, ns, lb, lim, split) in cfgs], chunk=8)
+    for (cs, ps, ns, lb, lim, split), (rc, out, err), m in zip(cfgs, outs, model):
+        case = {"kind": "fattree", "down": cs, "up": ps, "count": ns, "loopback": lb, "limiter": lim, "split": split}
+        n = prod(cs)
+        routes, bad = parse_routes(out)
+        if rc != 0 or bad or len(routes) != n * n:
+            ctx.fail("fattree-build", "fat-tree %s: driver rc=%d, %d/%d routes, %s %s" % (case, rc, len(routes), n * n, bad[:2], err[-300:]), case)
+            continue
+        if len(m) < 2 or m[0] != 1 or m[1] != n:
+            ctx.mismatch("fattree-tables", "the verified table checker tab_ok rejects the modelled construction for %s (answer %s): "
+                         "the up/down theorem does not apply to this instance" % (case, m[:2]), case)
+            continue
+        dist["fattree_platforms"] += 1
+        if not ft_limiter_ok(cs, ps):
+            # recorded finding: switch ids count down from 2*N0-1 and run into the ranks of the compute nodes
+            ids = set()
+            for r in routes.values():
+                if r[0] == "R":
+                    for x in r[2]:
+                        mm = re.match(r"link_from_(-?\d+)_(-?\d+)_", x)
+                        if mm:
+                            ids.add(int(mm.group(2)))
+            clash = sorted(i for i in ids if i < n)
+            if clash:
+                ctx.fail("fattree-switch-id-collides-with-rank", "fat-tree down=%s up=%s: %d switches for %d compute nodes; switch ids %s "
+                         "(seen in link names) are also ranks of compute nodes or negative; with a limiter callback named after the id "
+                         "(as the XML loader does) sealing aborts: Link declared several times" % (cs, ps, sum(ft_counts(cs, ps)[1:]), n, clash[:6]),
+                         dict(case, limiter=0))
+        pos = 2
+        for s in range(n):
+            for t in range(n):
+                ln = m[pos]
+                exp = ft_names("f", split, m[pos + 1:pos + 1 + 4 * ln])
+                pos += 1 + 4 * ln
+                r = routes.get(("f_h%d" % s, "f_h%d" % t))
+                dist["fattree_routes"] += 1
+                k = ft_nca(cs, s, t)
+                nontriv = s != t and (k >= 2 or max(ns) >= 2)
+                ctx.case(("fattree", tuple(cs), tuple(ps), tuple(ns), lb, lim, split, s, t), nontriv,
+                         {"platform": case, "src": s, "dst": t, "nca_level": k, "impl": r[2] if r[0] == "R" else r, "verified": exp}
+                         if nontriv and k >= 2 else None)
+                if r[0] == "R" and r[2] == exp:
+                    continue
+                c2 = dict(case, src=s, dst=t, impl=r, verified=exp)
+                why = "exception: " + r[1] if r[0] == "X" else ft_oracle(cs, ps, ns, lb, lim, split, s, t, r[2])
+                if why:
+                    ctx.fail("fattree-route", "fat-tree down=%s up=%s count=%s route %d->%d is %s, verified algorithm gives %s: %s" % (
+                        cs, ps, ns, s, t, r[2] if r[0] == "R" else r, exp, why), c2)
+                else:
+                    dist["fattree_harmless_differences"] = dist.get("fattree_harmless_differences", 0) + 1
+                    if len(ctx.notes) < 5:
+                        ctx.notes.append("route %d->%d in fat-tree %s/%s/%s differs from the modelled code but satisfies the property "
+                                         "(oracle: other parallel cable or other equivalent switch): impl %s model %s" % (s, t, cs, ps, ns, r[2], exp))
+
+
+def ft_grid():
+    """the enumerated finite grid: 1 level with values <= 4, 2 levels with values <= 3, 3 levels with values <= 2"""
+    res = []
+    for L, mx in ((1, 4), (2, 3), (3, 2)):
+        for v in itertools.product(range(1, mx + 1), repeat=3 * L):
+            res.append((list(v[:L]), list(v[L:2 * L]), list(v[2 * L:])))
+    return res
+
+
+def ft_random(rng):
+    L = rng.choice([2, 3, 3])
+    while True:
+        cs = [rng.randint(1, 4) for _ in range(L)]
+        ps = [rng.randint(1, 3) for _ in range(L)]
+        if prod(cs) <= 48 and max(ft_counts(cs, ps)) <= 64:
+            return cs, ps, [rng.randint(1, 3) for _ in range(L)]
+
+
+FT_CORPUS = [([2, 2], [1, 2], [1, 2], 1, 1, 0), ([4, 4], [1, 2], [1, 2], 0, 0, 0), ([2, 2, 2], [2, 2, 2], [2, 2, 2], 0, 0, 1),
+             ([3, 2, 2], [1, 2, 1], [2, 1, 3], 1, 1, 0), ([2], [8], [1], 0, 0, 0), ([3, 3], [2, 3], [3, 2], 0, 1, 0),
+             ([2, 3, 2], [2, 1, 2], [1, 3, 2], 0, 0, 0), ([4], [1], [1], 1, 1, 1), ([1, 1, 1], [1, 1, 1], [1, 1, 1], 0, 0, 0),
+             ([2, 4, 2], [1, 2, 2], [3, 2, 1], 1, 0, 0)]
+
+
+# ----------------------------------------------------------------------------------------------- dragonfly
+def df_names(z, split, p, tup):
+    """p = (G, C, B, n); tup = 7-tuples of the model"""
+    G, C, B, n = p
+    out = []
+    for i in range(0, len(tup), 7):
+        k, a, b, c, d, uid, up = tup[i:i + 7]
+        suf = ("_UP" if up else "_DOWN") if split else ""
+        if k == 0:
+            out.append("local_link_from_router_%d_to_node_%d_%d%s" % (a, b, uid, suf))
+        elif k == 1:
+            out.append("green_link_in_chassis_%d_between_routers_%d_and_%d_%d%s" % (a, b, c, uid, suf))
+        elif k == 2:
+            out.append("black_link_in_group_%d_between_chassis_%d_and_%d_blade_%d_%d%s" % (a, b, c, d, uid, suf))
+        elif k == 3:
+            out.append("blue_link_between_group_%d_and_%d_routers_%d_and_%d_%d%s" % (a, b, c, d, uid, suf))
+        elif k == 4:
+            out.append("%s_lb%d" % (z, a))
+        elif k == 5:
+            out.append("%s_lim%d" % (z, a))
+        elif k == 6:
+            out.append("%s_lim%d" % (z, 2 * G * C * B * n - 1 - a))
+        else:
+            out.append("__null__")
+    return out
+
+
+def df_oracle(p, lb, lim, split, s, t, links, z="d"):
+    """property-level judgement of an implementation route that differs from the modelled code: loopback alone when
+    configured; else node -> its router -> at most (green in the chassis, black in the group) -> blue to the destination
+    group iff the groups differ -> at most (green, black) -> router of the destination -> node, every link joining the
+    router reached so far to the next one; limiters of both nodes, of every router left and of the last router."""
+    G, C, B, n = p
+    if s == t and lb:
+        return None if links == ["%s_lb%d" % (z, s)] else "loopback route is not exactly the configured loopback link"
+    N = G * C * B * n
+    rs, rt = s // n, t // n
+    nloc, ngreen = N, G * C * (B * (B - 1) // 2)
+    cur, hops, kinds = rs, [], ""
+    for x in links:
+        m = re.match(r"green_link_in_chassis_(\d+)_between_routers_(\d+)_and_(\d+)_(\d+)(_UP|_DOWN)?$", x)
+        if m:
+            ch = (int(m.group(4)) - nloc) // max(1, B * (B - 1) // 2)
+            a, b, kind = ch * B + int(m.group(2)), ch * B + int(m.group(3)), "G"
+            if ch % C != int(m.group(1)):
+                return "green link %s: number and chassis do not fit" % x
+        else:
+            m = re.match(r"black_link_in_group_(\d+)_between_chassis_(\d+)_and_(\d+)_blade_(\d+)_(\d+)(_UP|_DOWN)?$", x)
+            if m:
+                g, l = int(m.group(1)), int(m.group(4))
+                a, b, kind = g * C * B + int(m.group(2)) * B + l, g * C * B + int(m.group(3)) * B + l, "K"
+            else:
+                m = re.match(r"blue_link_between_group_(\d+)_and_(\d+)_routers_(\d+)_and_(\d+)_(\d+)(_UP|_DOWN)?$", x)
+                if not m:
+                    continue
+                a, b, kind = int(m.group(3)), int(m.group(4)), "B"
+                if a // (C * B) != int(m.group(1)) or b // (C * B) != int(m.group(2)) or a // (C * B) == b // (C * B):
+                    return "blue link %s does not join two routers of the two groups" % x
+        if cur == a:
+            nxt, up = b, True
+        elif cur == b:
+            nxt, up = a, False
+        else:
+            return "link %s does not leave router %d reached so far" % (x, cur)
+        if split and (m.groups()[-1] == "_UP") != up:
+            return "wrong direction of split-duplex link %s" % x
+        hops.append((cur, x, kind))
+        kinds += kind
+        cur = nxt
+    if cur != rt:
+        return "the routers' walk ends at router %d, the destination's router is %d" % (cur, rt)
+    pat = r"G?K?$" if rs // (C * B) == rt // (C * B) else r"G?K?BG?K?$"
+    if not re.match(pat, kinds):
+        return "hops %s do not follow the hierarchy (%s)" % (kinds, pat[:-1])
+    suf = lambda up: ("_UP" if up else "_DOWN") if split else ""
+    liml = lambda i: ["%s_lim%d" % (z, i)] if lim else []
+    exp = liml(s) + ["local_link_from_router_%d_to_node_%d_%d%s" % (rs, s % n, s, suf(True))]
+    for (r, x, kind) in hops:
+        exp += [x] + liml(2 * N - 1 - r) if kind == "B" else liml(2 * N - 1 - r) + [x]
+    exp += liml(2 * N - 1 - rt) + ["local_link_from_router_%d_to_node_%d_%d%s" % (rt, t % n, t, suf(False))] + liml(t)
+    if exp != links:
+        return "local links or limiters not as configured: expected %s around the hops" % exp
+    return None
+
+
+def df_case_lines(p, lb, lim, split):
+    G, C, B, n = p
+    return ["dragonfly d - %d,1 %d,1 %d,1 %d %d %d %s 1" % (G, C, B, n, lb, lim, "split" if split else "shared"), "sealall", "dump"]
+
+
+def check_dragonfly(ctx, drv, cfgs, dist):
+    outs = run_platforms(drv, [df_case_lines(*c) for c in cfgs])
+    model = run_model_par("c26", "run_dragonfly", [[1, lb, lim] + list(p) for (p, lb, lim, split) in cfgs], chunk=4)
+    for (p, lb, lim, split), (rc, out, err), m in zip(cfgs, outs, model):
+        G, C, B, n = p
+        case = {"kind": "dragonfly", "shape": list(p), "loopback": lb, "limiter": lim, "split": split}
+        N = G * C * B * n
+        routes, bad = parse_routes(out)
+        built = rc == 0 and not bad and len(routes) == N * N
+        if G > B:
+            # outside the domain of the routing code (recorded finding): judged by the property only
+            why = None
+            if not built:
+                why = "driver rc=%d, %d/%d routes %s" % (rc, len(routes), N * N, err[-120:].replace("\n", " "))
+            else:
+                for s in range(N):
+                    for t in range(N):
+                        r = routes[("d_h%d" % s, "d_h%d" % t)]
+                        w = "exception " + r[1] if r[0] == "X" else df_oracle(p, lb, lim, split, s, t, r[2])
+                        if w and not why:
+                            why = "route %d->%d %s: %s" % (s, t, r, w)
+            dist["dragonfly_out_of_domain"] = dist.get("dragonfly_out_of_domain", 0) + 1
+            ctx.case(("dragonfly-ood", tuple(p), lb, lim, split), False)
+            if why:
+                ctx.fail("dragonfly-groups-exceed-blades", "dragonfly %s (more groups than blades per chassis): %s" % (list(p), why), case)
+            continue
+        if not built:
+            ctx.fail("dragonfly-build", "dragonfly %s: driver rc=%d, %d/%d routes, %s %s" % (case, rc, len(routes), N * N, bad[:2], err[-300:]), case)
+            continue
+        if not m or m[0] != N:
+            ctx.mismatch("dragonfly-model", "model answer %s for %s" % (m[:3], case), case)
+            continue
+        dist["dragonfly_platforms"] += 1
+        pos = 1
+        for s in range(N):
+            for t in range(N):
+                ln = m[pos]
+                exp = df_names("d", split, p, m[pos + 1:pos + 1 + 7 * ln])
+                pos += 1 + 7 * ln
+                r = routes.get(("d_h%d" % s, "d_h%d" % t))
+                dist["dragonfly_routes"] += 1
+                nontriv = s // n != t // n
+                ctx.case(("dragonfly", tuple(p), lb, lim, split, s, t), nontriv,
+                         {"platform": case, "src": s, "dst": t, "impl": r[2] if r[0] == "R" else r, "verified": exp}
+                         if nontriv and s // (C * B * n) != t // (C * B * n) and len(exp) > 5 else None)
+                if r[0] == "R" and r[2] == exp:
+                    continue
+                c2 = dict(case, src=s, dst=t, impl=r, verified=exp)
+                why = "exception: " + r[1] if r[0] == "X" else df_oracle(p, lb, lim, split, s, t, r[2])
+                if why:
+                    ctx.fail("dragonfly-route", "dragonfly %s route %d->%d is %s, verified algorithm gives %s: %s" % (
+                        list(p), s, t, r[2] if r[0] == "R" else r, exp, why), c2)
+                else:
+                    dist["dragonfly_harmless_differences"] = dist.get("dragonfly_harmless_differences", 0) + 1
+                    if len(ctx.notes) < 5:
+                        ctx.notes.append("route %d->%d in dragonfly %s differs from the modelled code but satisfies the property (oracle): "
+                                         "impl %s model %s" % (s, t, list(p), r[2], exp))
+
+
+DF_CORPUS = [((1, 3, 2, 1), 0, 0, 0), ((2, 2, 2, 2), 1, 1, 0), ((3, 3, 3, 1), 0, 1, 1), ((2, 3, 3, 2), 1, 0, 0), ((1, 1, 1, 3), 1, 1, 1),
+             ((2, 1, 1, 1), 0, 0, 0), ((3, 2, 2, 1), 0, 0, 0), ((2, 2, 4, 1), 0, 1, 0), ((4, 2, 5, 1), 0, 0, 0)]
+
+
 TORUS_CORPUS = [([3, 2], 1, 1, 0), ([4], 0, 0, 0), ([2, 2, 2], 0, 1, 1), ([5, 3], 1, 0, 1), ([6, 2], 0, 0, 0), ([1, 3, 4], 0, 0, 0), ([3, 1, 4], 1, 0, 0),
                 ([8, 8], 0, 0, 0), ([4, 4, 4], 0, 1, 0), ([2, 2, 2, 2, 2], 1, 1, 0), ([7], 1, 1, 1), ([2], 0, 0, 1)]
 
@@ -235,13 +567,20 @@ def run(ctx):
     ctx.simgrid(["simgrid"])
     ctx.prove()
     drv = fw.build_harness("routing_drv")
-    dist = {"torus_platforms": 0, "torus_routes": 0, "star_platforms": 0, "star_routes": 0}
+    dist = {"torus_platforms": 0, "torus_routes": 0, "star_platforms": 0, "star_routes": 0, "fattree_platforms": 0, "fattree_routes": 0,
+            "dragonfly_platforms": 0, "dragonfly_routes": 0}
     ctx.cov["rule"] = ("one case = one ordered host pair of one generated platform; non-trivial = torus pair with src != dst, "
-                       "star pair whose up+down lists share a link or that uses a loopback; distinct = distinct (platform, pair)")
+                       "star pair whose up+down lists share a link or that uses a loopback, fat-tree pair with src != dst whose nearest "
+                       "common ancestors are at level >= 2 or that has parallel cables to choose from, dragonfly pair on different routers; "
+                       "distinct = distinct (platform, pair)")
     if ctx.replay:
         rp = json.load(open(ctx.replay))["case"]
         if rp.get("kind") == "torus":
             check_torus(ctx, drv, [(rp["dims"], rp["loopback"], rp["limiter"], rp["split"])], dist)
+        elif rp.get("kind") == "fattree":
+            check_fattree(ctx, drv, [(rp["down"], rp["up"], rp["count"], rp["loopback"], rp["limiter"], rp["split"])], dist)
+        elif rp.get("kind") == "dragonfly":
+            check_dragonfly(ctx, drv, [(tuple(rp["shape"]), rp["loopback"], rp["limiter"], rp["split"])], dist)
         elif rp.get("kind") == "star":
             # the declaration is recomputed from the stored lines
             ctx.notes.append("star replay: re-running stored platform")
@@ -268,11 +607,49 @@ def run(ctx):
         ctx.cov["exhaustive"] = ("torus: all %d dimension vectors with every dimension >= 2, <= 5 dimensions, <= 64 nodes, each with "
                                  "(no loopback, no limiter) and (loopback, limiter), all ordered pairs" % len(shapes))
     check_torus(ctx, drv, cfgs, dist)
+    # fat-tree: the whole grid (1 level: values <= 4, 2 levels: <= 3, 3 levels: <= 2) in the thorough tier; a sample in quick
+    grid = ft_grid()
+    fcfgs = list(FT_CORPUS)
+    if ctx.quick:
+        for (cs, ps, ns) in ctx.rng.sample(grid, 40) + [ft_random(ctx.rng) for _ in range(8)]:
+            fcfgs.append((cs, ps, ns, ctx.rng.randint(0, 1), ctx.rng.randint(0, 1), ctx.rng.randint(0, 1)))
+    else:
+        for (cs, ps, ns) in grid:
+            fcfgs.append((cs, ps, ns, 0, 0, 0))
+            fcfgs.append((cs, ps, ns, 1, 1, ctx.rng.randint(0, 1)))
+        for _ in range(300):
+            fcfgs.append(ft_random(ctx.rng) + (ctx.rng.randint(0, 1), ctx.rng.randint(0, 1), ctx.rng.randint(0, 1)))
+        ctx.cov["exhaustive"] += ("; fat-tree: all %d parameter vectors with 1 level and values <= 4, 2 levels and values <= 3, 3 levels "
+                                  "and values <= 2 (down, up, link count), each without and with loopback+limiter, all ordered pairs" % len(grid))
+    check_fattree(ctx, drv, fcfgs, dist)
+    # dragonfly: every shape G, C, B, n <= 3 in the thorough tier (those with more groups than blades are outside the domain of
+    # the routing code: recorded finding, one of them in the quick tier); a sample in quick
+    dshapes = list(itertools.product((1, 2, 3), repeat=4))
+    dcfgs = list(DF_CORPUS)
+    if ctx.quick:
+        dcfgs = dcfgs[:6] + [(sh, ctx.rng.randint(0, 1), ctx.rng.randint(0, 1), ctx.rng.randint(0, 1))
+                             for sh in ctx.rng.sample([x for x in dshapes if x[0] <= x[2]], 10)]
+    else:
+        for sh in dshapes:
+            dcfgs.append((sh, 0, 0, 0))
+            dcfgs.append((sh, 1, 1, ctx.rng.randint(0, 1)))
+        for _ in range(20):
+            B = ctx.rng.randint(1, 5)
+            dcfgs.append(((ctx.rng.randint(1, B), ctx.rng.randint(1, 4), B, ctx.rng.randint(1, 3)), ctx.rng.randint(0, 1), ctx.rng.randint(0, 1), ctx.rng.randint(0, 1)))
+        ctx.cov["exhaustive"] += ("; dragonfly: all 81 shapes with groups, chassis, blades, nodes <= 3, each without and with "
+                                  "loopback+limiter, all ordered pairs (27 of them, with more groups than blades, are outside the "
+                                  "domain of the routing code: recorded finding)")
+    check_dragonfly(ctx, drv, dcfgs, dist)
     nstar = ctx.n(40, 600)
     check_star(ctx, drv, [gen_star(ctx.rng, ctx.rng.randint(1, 7)) for _ in range(nstar)], dist)
     ctx.cov["input_distribution"] = dist
     ctx.assumptions += ["torus ranks and their products fit the machine integers of the C++ (nodes < 2^31)",
-                        "cluster hosts are created in rank order by the host callback (netpoint id = rank)"]
+                        "cluster hosts are created in rank order by the host callback (netpoint id = rank)",
+                        "fat-tree: one fat-tree zone per process (add_processing_node/add_internal_link count in static variables); "
+                        "limiters are requested only when there are at most as many switches as compute nodes (else: recorded finding "
+                        "fattree-switch-id-collides-with-rank)",
+                        "dragonfly: the model describes get_local_route only with at most as many groups as blades per chassis "
+                        "(else: recorded finding dragonfly-groups-exceed-blades); one dragonfly zone per process (static uniqueId)"]
 
 
 def star_decl_from_lines(lines):
@@ -314,23 +691,45 @@ def star_decl_from_lines(lines):
 
 META = {
     "level": "proof",
-    "text": "Torus and Star (scope: fat-tree and dragonfly are NOT covered). Coq theorems for ALL dimension vectors (sizes >= 1) and all "
-            "ranks about a line-by-line model of TorusZone::get_local_route/create_torus_links: the hops are exactly 'dimension after "
-            "dimension' (C26_torus_dimension_by_dimension, C26_torus_dim_order), per dimension min((t-m) mod d, (m-t) mod d) hops all "
-            "in the same, shorter, direction (C26_torus_hops), they form a walk src->dst of single +-1 steps (C26_torus_walk, "
-            "C26_torus_hop_one_step) over the link created between the two ends (C26_torus_link_joins_hop); loopback only for "
-            "src = dst and alone, limiters of every visited node in order (C26_loopback_limiter). Star: the route is the source's up links "
-            "then the destination's down links, first occurrences only, no link twice, exactly up ++ down when that has no repeat "
-            "(C26_star_up_down_no_repeat, C26_star_first_occurrences). Tie: routing_drv builds each platform with the C++ API of the "
-            "rebuilt library and Host::route_to of ALL ordered pairs is compared link by link with the extracted functions; thorough "
-            "tier enumerates every torus shape with all sizes >= 2, <= 5 dimensions, <= 64 nodes. A torus route that differs from the "
-            "model is judged by the property itself (dimension order, shorter way, joining links, limiters): ties broken the other way "
-            "are accepted.",
-    "note": "NOT covered: FatTreeZone and DragonflyZone (no model, no theorem, not exercised); cluster zones whose leaves are netzones "
-            "(gateways). The torus acceptance oracle for routes that differ from the model is Python (unverified); routes equal to the "
-            "model are covered by the theorems. Shapes with two or more dimensions of size 1 abort at creation (duplicate link name) "
-            "and are excluded. Assumed: ranks and products fit the C++ machine integers; host callbacks create hosts in rank order. "
-            "Trusted: Coq kernel, extraction, routing_drv, the Python generator and link-name mapping.",
-    "technique": "Coq proof (mixed-radix arithmetic, induction over dimensions) + extracted-model differential correspondence on enumerated platforms",
+    "text": "Torus, Star, Fat-tree, Dragonfly. TORUS: Coq theorems for ALL dimension vectors (sizes >= 1) and all ranks about a line-by-line "
+            "model of TorusZone::get_local_route/create_torus_links: the hops are exactly 'dimension after dimension' "
+            "(C26_torus_dimension_by_dimension, C26_torus_dim_order), per dimension min((t-m) mod d, (m-t) mod d) hops all in the same, "
+            "shorter, direction (C26_torus_hops), they form a walk src->dst of single +-1 steps (C26_torus_walk, C26_torus_hop_one_step) "
+            "over the link created between the two ends (C26_torus_link_joins_hop); loopback only for src = dst and alone, limiters of "
+            "every visited node in order (C26_loopback_limiter). STAR: the source's up links then the destination's down links, first "
+            "occurrences only, no link twice (C26_star_up_down_no_repeat, C26_star_first_occurrences). FAT-TREE: model of the construction "
+            "(add_processing_node, generate_switches, generate_labels' odometer, get_level_position, are_related, "
+            "connect_node_to_parents, add_internal_link: node vector and link list with ports and uniqueId) and of get_local_route walking "
+            "those tables (d-mod-k up ports, the down for-loop that keeps running after a hop). C26_fattree_up_down: for ALL parameter "
+            "vectors accepted by check_topology (any number of levels, any down/up/link counts) and all pairs of compute nodes, over any "
+            "tables with the property TabOK, the route is k hops up then k hops down, never up after down, chained, each hop changing the "
+            "level by one over a link joining its ends, from the source to the destination, k = least level >= 1 from which the labels "
+            "agree; the turning node has both ends in its sub-tree and nothing lower has (C26_fattree_nca_nearest). TabOK is decided by the "
+            "verified checker tab_ok (C26_fattree_tables_checker_sound) that the extracted model runs on the constructed tables of every "
+            "tied instance (C26_fattree_up_down_built_partial: not proved for all parameters that the construction satisfies it). "
+            "C26_fattree_loopback_limiter. DRAGONFLY: C26_dragonfly_coords_bijection (rank <-> group/chassis/blade/node and router index "
+            "<-> triple, all parameters); C26_dragonfly_hierarchy_partial: the routers' part of the route is a walk from the source's to "
+            "the destination's router through links held by the router left (all parameters with groups <= blades per chassis, all ranks); "
+            "C26_dragonfly_hop_kinds_partial: [green][black] inside a group exactly as coordinates differ, [green][black] blue "
+            "[green][black] between groups; C26_dragonfly_link_ends; C26_dragonfly_loopback_limiter; C26_dragonfly_pinned_refuted (code "
+            "before fix b10f387707 is not a walk). TIE: routing_drv builds each platform with the C++ API of the rebuilt library and "
+            "Host::route_to of ALL ordered pairs is compared link by link (names, incl. parallel cable, uniqueId, _UP/_DOWN, limiter and "
+            "loopback names) with the extracted functions; thorough tier enumerates every torus shape (sizes >= 2, <= 5 dims, <= 64 nodes), "
+            "every fat-tree with 1 level/values <= 4, 2 levels/<= 3, 3 levels/<= 2, every dragonfly <= 3x3x3x3. A route that differs "
+            "from the model is judged by the property itself (Python oracle: torus dimension order/shorter way; fat-tree k up then k down "
+            "over joining links; dragonfly walk + hierarchy; limiters/loopback as configured): other tie-breaks, cables or equivalent "
+            "switches are accepted.",
+    "note": "Fat-tree: that the modelled construction satisfies TabOK is computed per instance (verified checker), not proved for all "
+            "parameter vectors; link identity (which parallel cable, names) is covered by the correspondence only. Dragonfly: theorems and "
+            "model are restricted to groups <= blades per chassis; beyond, the C++ indexes out of bounds (finding "
+            "dragonfly-groups-exceed-blades, judged by the outcome of the run only). Findings: fattree-switch-id-collides-with-rank (more "
+            "switches than compute nodes: ids collide, limiter callbacks named by id abort) - limiters are not requested on those shapes. "
+            "Fixed in /repo: b10f387707 (dragonfly green hop lost the chassis). NOT covered: cluster zones whose leaves are netzones "
+            "(gateways). The acceptance oracles for routes that differ from the model are Python (unverified); routes equal to the model "
+            "are covered by the theorems. Torus shapes with two or more dimensions of size 1 abort at creation and are excluded. Assumed: "
+            "ranks and products fit the C++ machine integers; host callbacks create hosts in rank order; one fat-tree/dragonfly zone per "
+            "process (static counters). Trusted: Coq kernel, extraction, routing_drv, the Python generators and link-name mapping.",
+    "technique": "Coq proof (mixed-radix arithmetic, induction over dimensions/levels, verified table checker) + extracted-model "
+                 "differential correspondence on enumerated platforms",
     "claimed": True,
 }
